@@ -23,6 +23,7 @@ ASSUMPTIONS = [
 SOURCE_FILES = ["barter/src/statistic/metric/sharpe.rs", "barter/src/statistic/metric/sortino.rs", "barter/src/statistic/metric/calmar.rs",
                 "barter/src/statistic/metric/rate_of_return.rs", "barter/src/statistic/time.rs", "barter/src/statistic/summary/instrument.rs",
                 "barter/src/statistic/summary/pnl.rs", "barter/src/statistic/summary/asset.rs"]
+PREBUILD = [["python3", "tools/rust2lean_sm.py", "--require", "metrics"]]
 
 
 def signature(ops, k, key, impl_line, spec_line):
@@ -64,4 +65,5 @@ LEVEL_TEXT = ("Sub-check of C16. 62 Lean theorems (lean/BarterModel/Props/C16M.l
               "whole-second intervals, finite fitting values only (scale_refines_spec_partial, ror_scale_refines_spec_partial); truncated intervals are bounded "
               "(periods_truncation_bounds); on the sentinels the refinement is false (witness theorems above).")
 LEVEL_NOTE = ("Trusted: Lean kernel; axioms propext/Classical.choice/Quot.sound only; the hand-written model (tied by sampled correspondence on every run); "
-              "harness and driver. Exact rationals instead of rust_decimal; Decimal::sqrt abstract in the theorems.")
+              "harness and driver. Exact rationals instead of rust_decimal; Decimal::sqrt abstract in the theorems. "
+              "Additionally tied by translation: calculate and scale of the four metrics and the TimeInterval implementors Daily / Annual252 / Annual365 are regenerated from the current source on every run by tools/rust2lean_sm.py (Generated/Machines2.lean) and proved equal to the model (kernels_agree_with_source; scale only where value x factor does not overflow, Decimal::sqrt an untranslated parameter); the translator and its prelude are trusted for that tie.")
